@@ -1083,8 +1083,16 @@ int flatcc_builder_start_string(flatcc_builder_t *B)
 
 int flatcc_builder_reserve_table(flatcc_builder_t *B, int count)
 {
+    size_t pl_used;
+
     check(count >= 0, "cannot reserve negative count");
-    return reserve_fields(B, count);
+    /* Offset fields already added to this table must keep their patch list entries. */
+    pl_used = (size_t)pl_offset(B->pl) - (size_t)frame(container.table.pl_end);
+    if (reserve_fields(B, count)) {
+        return -1;
+    }
+    B->pl = pl_ptr(frame(container.table.pl_end) + pl_used);
+    return 0;
 }
 
 int flatcc_builder_start_table(flatcc_builder_t *B, int count)
